@@ -149,6 +149,26 @@ NOTES = {
  'C18g': ('missed', 'a required input object whose own fields are all optional: alone, as a field of another input object, as a list element'),
  'C19g': ('missed', 'one leaf in both copies of a repeated parent field, with its own directives in each copy (gateway and single server)'),
  'C20g': ('detected', ''),
+ 'C01h': ('detected', ''),
+ 'C02h': ('missed', 'the unsubscribe-versus-scheduled-re-run scripts explored at bound 3 (the window is three deviations deep)'),
+ 'C03h': ('detected', ''),
+ 'C04h': ('detected', ''),
+ 'C05h': ('missed', 'batch outcomes "all results next to an error" and "some results next to an error"'),
+ 'C06h': ('missed', 'fragments inside mutations: on a payload type only the mutation returns, and on the Mutation root'),
+ 'C07h': ('missed', 'a burst of 1040 single-row inserts (the rows a live query selects last) while the update applier is delayed: more change events than the poll loop buffers'),
+ 'C08h': ('missed', 'a non-reactive reader (AddDependency without a rerunner) of a long-lived resource a live computation depends on; oracle: no cleanup while live, no re-run without a write'),
+ 'C09h': ('missed', 'edits that retarget a field to another object type of the same kind'),
+ 'C10h': ('detected', ''),
+ 'C11h': ('missed', 'sort values at the ends of the int64 range (differences that overflow)'),
+ 'C12h': ('missed', 'a log-only dynamic limit (callback says continue) next to a shard limit, in both orders'),
+ 'C13h': ('detected', ''),
+ 'C14h': ('detected', ''),
+ 'C15h': ('missed', 'deep nesting placed after a comment line ended by LF / CR / CRLF and after a string holding brackets'),
+ 'C16h': ('missed', 'an Expensive field with a dependency of its own that starts failing on a re-run, then another dependency changes; oracle: while the query fails the client keeps the last successful answer'),
+ 'C17h': ('detected', ''),
+ 'C18h': ('missed', 'harness c18/shared-selection: one selection inside a named fragment reaching the resolvers of two types (same / identical / differing argument structs, paginated)'),
+ 'C19h': ('missed', '__typename carrying the directives itself (under objects, aliased, on unions, in fragments)'),
+ 'C20h': ('missed', 'a temporarily released function that panics, recovered by the caller which goes on working'),
 }
 # seeds whose change has no effect any more on the current tree (a later repair of thunder covers the same line), or whose
 # patch was rebased onto a line a later repair changed (the original is kept as patch.orig.diff)
